@@ -944,6 +944,17 @@ func (g *guardCtx) classifyMapRange(rs *ast.RangeStmt, fnBody *ast.BlockStmt) st
 				if f.Name == "delete" && len(call.Args) == 2 && isLocalRooted(call.Args[1]) {
 					return true
 				}
+				// a helper of the library whose whole body is one sort of (a field of) its parameter, applied to this
+				// iteration's own entry: the sort of its own slice, extracted into a function
+				ownArgs := len(call.Args) > 0
+				for _, a := range call.Args {
+					if !isLocalRooted(g.untype(a)) && !keyedByLocal(g.untype(a)) {
+						ownArgs = false
+					}
+				}
+				if ownArgs && g.calleeOnlySortsParam(call) {
+					return true
+				}
 				bad("call of " + f.Name)
 			case *ast.SelectorExpr:
 				if pk, ok := f.X.(*ast.Ident); ok && pk.Name == "sort" {
@@ -1171,6 +1182,61 @@ func (g *guardCtx) calleeReturnsParam(call *ast.CallExpr, k int) bool {
 
 // calleeSortsParam: the call's target is a function declared in the library whose body passes its k-th parameter as the
 // first argument of a sort.* / slices.* call (one level deep).
+// calleeOnlySortsParam: the call's target is a function of the library whose body is exactly one statement, a call of
+// sort.* / slices.Sort* whose first argument is rooted in one of the function's parameters.
+func (g *guardCtx) calleeOnlySortsParam(call *ast.CallExpr) bool {
+	id, ok := unparen(call.Fun).(*ast.Ident)
+	if !ok {
+		return false
+	}
+	obj, ok := g.info.ObjectOf(id).(*types.Func)
+	if !ok {
+		return false
+	}
+	for _, p := range g.c.pkgs {
+		for _, file := range p.Syntax {
+			for _, d := range file.Decls {
+				fd, ok := d.(*ast.FuncDecl)
+				if !ok || fd.Body == nil || p.TypesInfo.Defs[fd.Name] != obj {
+					continue
+				}
+				if len(fd.Body.List) != 1 {
+					return false
+				}
+				es, ok := fd.Body.List[0].(*ast.ExprStmt)
+				if !ok {
+					return false
+				}
+				c2, ok := es.X.(*ast.CallExpr)
+				if !ok || len(c2.Args) < 1 {
+					return false
+				}
+				sel, ok := c2.Fun.(*ast.SelectorExpr)
+				if !ok {
+					return false
+				}
+				pk, ok := sel.X.(*ast.Ident)
+				if !ok || (pk.Name != "sort" && pk.Name != "slices") {
+					return false
+				}
+				r := rootIdent(g.untype(c2.Args[0]))
+				if r == nil {
+					return false
+				}
+				for _, fld := range fd.Type.Params.List {
+					for _, n := range fld.Names {
+						if p.TypesInfo.Defs[n] == p.TypesInfo.ObjectOf(r) {
+							return true
+						}
+					}
+				}
+				return false
+			}
+		}
+	}
+	return false
+}
+
 func (g *guardCtx) calleeSortsParam(call *ast.CallExpr, k int) bool {
 	var id *ast.Ident
 	switch f := unparen(call.Fun).(type) {
